@@ -11,7 +11,6 @@ import numpy as np
 from harness.common import frac, err_kind
 
 PID = "C32"
-DISABLED = True
 THEOREMS = [
     "PorepyVerif.C32.rotation_matrix_formula_orthogonal",
     "PorepyVerif.C32.rotationMatrix_eq_rodrigues",
@@ -224,11 +223,13 @@ def _gen_plane(rng):
                     for j in range(len(coef)) for k in range(len(coef)))
             if m >= 1:
                 break
+    exact = all(isinstance(x, Fraction) for x in list(u) + list(w))  # rational frame: round once, at the end
     pts = []
     for (a, b) in coef:
-        p = [float(o[i]) + float(sc) * (float(a) * float(u[i]) + float(b) * float(w[i])) if isinstance(u[i], float) or isinstance(w[i], float)
-             else float(o[i] + sc * (a * u[i] + b * w[i])) for i in range(3)]
-        pts.append(p)
+        if exact:
+            pts.append([float(o[i] + sc * (a * u[i] + b * w[i])) for i in range(3)])
+        else:
+            pts.append([float(o[i]) + float(sc) * (float(a) * float(u[i]) + float(b) * float(w[i])) for i in range(3)])
     if cls == "nonplanar" and pts:
         nrm = np.cross(np.array(u, dtype=float), np.array(w, dtype=float))
         nrm = nrm / np.linalg.norm(nrm)
@@ -270,9 +271,6 @@ def _gen_line(rng):
             dev = sorted(abs(x - m) for x in lam)
             if dev[-1] > 0.2 and (rng.random() < 0.15 or dev[-1] - dev[-2] > 1e-3):
                 break
-    if cls in ("z", "negz", "x") and rng.random() < 0.5:
-        # keep the other coordinates exactly constant so that the tangent is exactly axis-aligned
-        pass
     pts = [[o[i] + l * d[i] for i in range(3)] for l in lam]
     ref = None if rng.random() < 0.6 else rng.choice([[1.0, 0.0, 0.0], [0.0, 1.0, 0.0]])
     return {"kind": "line", "pts": pts, "ref": ref, "cls": cls}
@@ -409,7 +407,10 @@ def _raw(case):
                     "normal": tn.project_normal(num).toarray(), "normals_attr": tn.normals}
         return _call(f)
     if k == "grid":
-        g = _grid(case)
+        g = _call(lambda: _grid(case))  # compute_geometry of a 1-d grid itself uses compute_tangent
+        if _is_err(g):
+            return g
+
         def f():
             cc, fn, fc, R, dim, nodes = mg.map_grid(g)
             return {"cc": cc, "fn": fn, "fc": fc, "R": R, "dim": np.asarray(dim), "nodes": nodes}
@@ -470,7 +471,9 @@ def model_ops(case):
     if k == "tn":
         return [{"op": "tn", "dim": case["dim"], "normals": [_fr(v) for v in case["normals"]], "num": case["num"]}]
     if k == "grid":
-        g = _grid(case)
+        g = _call(lambda: _grid(case))
+        if _is_err(g):
+            return [{"op": "grid-construction-failed"}]
         pts = [_fr(p) for p in g.nodes.T]
         if case["dim"] == 2:
             return [{"op": "plane", "pts": pts, "tol": frac(1e-5), "ref": _fr(EZ), "check_planar": True}]
